@@ -637,7 +637,11 @@ verif_proof_io! { [C22 C05 C20]
 // ===========================================================================
 // C18: a read-only log handle never writes, and refuses every mutator.
 // ===========================================================================
-fn read_only_ops(old: bool, new: bool) {
+fn read_only_ops(old: bool, new: bool) { read_only_ops_upto(old, new, 2); }
+// `upto`: 0 = open only, 1 = open + scan, 2 = also the refused mutations. The short
+// variants exist so that a write on the read-only path is reported by a query that
+// stays small even when that write is a symbolic-length buffer.
+fn read_only_ops_upto(old: bool, new: bool, upto: u8) {
     let p = shaped_pre(old, new);
     let header = Header {
         magic: *b"MV2\0",
@@ -655,24 +659,28 @@ fn read_only_ops(old: bool, new: bool) {
     match r {
         Ok(mut wal) => {
             assert!(unsafe { WRITES } == 0, "[C18] opening the log read-only wrote to the file");
-            let recs = wal.pending_records();
-            assert!(unsafe { WRITES } == 0, "[C18] scanning a read-only log wrote to the file");
-            match &recs {
-                Ok(v) => assert!(v.len() == if new { 1 } else { 0 }, "[C18] read-only scan does not report exactly the pending records"),
-                Err(_) => assert!(false, "[C18] read-only scan failed on a well-formed log"),
+            if upto >= 1 {
+                let recs = wal.pending_records();
+                assert!(unsafe { WRITES } == 0, "[C18] scanning a read-only log wrote to the file");
+                match &recs {
+                    Ok(v) => assert!(v.len() == if new { 1 } else { 0 }, "[C18] read-only scan does not report exactly the pending records"),
+                    Err(_) => assert!(false, "[C18] read-only scan failed on a well-formed log"),
+                }
+                leak(recs);
             }
-            leak(recs);
-            let payload: [u8; 3] = kani::any();
-            let a = wal.append_entry(&payload);
-            assert!(matches!(a, Err(MemvidError::Lock(_))), "[C18] append on a read-only log was not refused");
-            leak(a);
-            let mut h2 = header.clone();
-            let c = wal.record_checkpoint(&mut h2);
-            assert!(matches!(c, Err(MemvidError::Lock(_))), "[C18] checkpoint on a read-only log was not refused");
-            assert!(h2.wal_sequence == header.wal_sequence && h2.wal_checkpoint_pos == header.wal_checkpoint_pos, "[C18] refused checkpoint changed the header");
-            leak(c);
-            assert!(!wal.should_checkpoint(), "[C18] a read-only log asks for a checkpoint");
-            assert!(unsafe { WRITES } == 0, "[C18] a refused mutation wrote to the file");
+            if upto >= 2 {
+                let payload: [u8; 3] = kani::any();
+                let a = wal.append_entry(&payload);
+                assert!(matches!(a, Err(MemvidError::Lock(_))), "[C18] append on a read-only log was not refused");
+                leak(a);
+                let mut h2 = header.clone();
+                let c = wal.record_checkpoint(&mut h2);
+                assert!(matches!(c, Err(MemvidError::Lock(_))), "[C18] checkpoint on a read-only log was not refused");
+                assert!(h2.wal_sequence == header.wal_sequence && h2.wal_checkpoint_pos == header.wal_checkpoint_pos, "[C18] refused checkpoint changed the header");
+                leak(c);
+                assert!(!wal.should_checkpoint(), "[C18] a read-only log asks for a checkpoint");
+                assert!(unsafe { WRITES } == 0, "[C18] a refused mutation wrote to the file");
+            }
             kani::cover!(true, "read-only handle exercised");
             leak(wal);
         }
@@ -689,4 +697,19 @@ verif_proof_ghost! { [C18]
     #[kani::unwind(6)]
     #[kani::stub(crate::io::wal::EmbeddedWal::scan_records, crate::io::wal::verif_wal::ghost_scan_00)]
     fn c18_wal_read_only_empty() { read_only_ops(false, false); }
+}
+verif_proof_ghost! { [C18]
+    #[kani::unwind(6)]
+    #[kani::stub(crate::io::wal::EmbeddedWal::scan_records, crate::io::wal::verif_wal::ghost_scan_11)]
+    fn c18_wal_read_only_open_only() { read_only_ops_upto(true, true, 0); }
+}
+verif_proof_ghost! { [C18]
+    #[kani::unwind(6)]
+    #[kani::stub(crate::io::wal::EmbeddedWal::scan_records, crate::io::wal::verif_wal::ghost_scan_11)]
+    fn c18_wal_read_only_scan_only() { read_only_ops_upto(true, true, 1); }
+}
+verif_proof_ghost! { [C18]
+    #[kani::unwind(6)]
+    #[kani::stub(crate::io::wal::EmbeddedWal::scan_records, crate::io::wal::verif_wal::ghost_scan_01)]
+    fn c18_wal_read_only_open_pending_only() { read_only_ops_upto(false, true, 0); }
 }
